@@ -264,6 +264,8 @@ def gen_transport(rng, g, name, n1, n2, f, cost_key=None, window=True, extended=
         # a link used against its nominal direction (capacities <= 0; costs act on the absolute flow) or - without costs - in both directions
         if rng.random() < 0.7:
             a['min_cap'] = -a['max_cap']; a['max_cap'] = pick(rng, [0., 0., r2(a['min_cap'] / 2.)]); a['efficiency'] = 1.; reverse = True
+            if rng.random() < 0.5:
+                a['costs_const'] = pick(rng, [0.2, 2.]); a['wacc'] = pick(rng, [0.2, 0.5, 0.])          # discounted costs on the absolute flow
         elif not a.get('costs_time_series'):
             a['min_cap'] = -a['max_cap']; a['costs_const'] = 0.; a['efficiency'] = 1.; reverse = True
     if not reverse and (extended if extended is not None else rng.random() < 0.35):
